@@ -30,7 +30,7 @@ theorem wfToken_kvstr {kv : Str × Option Str} (h : wfDictEntry kv = true) : wfT
   | some v =>
     simp only [] at hv
     obtain ⟨hkne, hkc⟩ := wfToken_spec hk'
-    obtain ⟨_, hvc⟩ := wfToken_spec hv
+    have hvc : ∀ c ∈ v, cleanChar c = true := List.all_eq_true.mp hv
     simp only [kvstr, wfToken, Bool.and_eq_true, Bool.not_eq_true', List.all_eq_true]
     refine ⟨?_, ?_⟩
     · cases k with
@@ -58,12 +58,7 @@ theorem dictStep_wf {kv : Str × Option Str} (h : wfDictEntry kv = true) (acc : 
   obtain ⟨k, v⟩ := kv
   cases v with
   | none => rfl
-  | some v =>
-    simp only [wfDictEntry, Bool.and_eq_true] at h
-    have hne := (wfToken_spec h.2).1
-    cases v with
-    | nil => exact absurd rfl hne
-    | cons c cs => simp [dictStep, kvstr]
+  | some v => simp [dictStep, kvstr]
 
 theorem dictFold_wf : ∀ (d : List (Str × Option Str)) (acc : Str), (∀ kv ∈ d, wfDictEntry kv = true) →
     d.foldl dictStep acc = acc ++ (d.map (fun kv => kvstr kv ++ [' '])).flatten
